@@ -19,10 +19,20 @@ def run(tier, seed, pid='C16', pack=None):
                'storage; csc_matrix((data, indices, indptr), shape) builds the matrix with that storage')
     pack.assume(*COMMON_ASSUME)
     pack.assume('matrices, vectors and factors are uninterpreted sorts; "A^-1 b" is an uninterpreted function (ring-level '
-                'reasoning only)', 'not decided: numeric agreement across back ends, bit-identical reruns, numba')
+                'reasoning only)', 'numeric agreement across back ends: bounded native stand-in on one stock case only; not decided: bit-identical reruns, numba')
     items = [(S.suitesparse_solve(pid, 'umfpack'), None, S.replay_solvers), (S.suitesparse_solve(pid, 'klu'), None, S.replay_solvers), (S.suitesparse_linsolve(pid, 'KLUSolver', 'klu'),),
              (S.suitesparse_linsolve(pid, 'UMFPACKSolver', 'umfpack'),), (S.spsolve_solve(pid), None, S.replay_solvers), (S.refresh_symbolic(pid),), (S.spmatrix_to_csc(pid),),
              (S.solver_dispatch(pid, 'solve'), None, S.replay_dispatch), (S.solver_dispatch(pid, 'linsolve'), None, S.replay_dispatch)]
     run_contracts(pack, items)
     if own:
+        from contracts.packutil import native_guard
+        from contracts import bounded_backends as BB
+        name = 'C16/andes/linsolvers:Solver/bounded:power-flow,trajectory,eigenvalues-agree-across-back-ends-and-accumulation-modes'
+        r = native_guard(pack, name, BB.run)
+        if r is not None:
+            n, bad = r
+            pack.bounded.append({'function': 'PFlow / TDS / EIG with klu, umfpack, spsolve; ipadd 0/1; linsolve 0/1 (end to end)',
+                                 'kind': 'bounded native: kundur_full', 'cases': n, 'counted_as_proved': False})
+            if bad:
+                pack.violation(name, {'bounded': True, 'inputs': bad, 'native_cmd': 'contracts/bounded_backends.py'})
         return pack.finish()
